@@ -11,7 +11,8 @@ From WW Require Import Model.Shutdown Proofs.ShutdownP Model.Config Proofs.Confi
 Import ListNotations.
 Open Scope Z_scope.
 
-(** It exits no later than the graceful period after the signal (non-negative wait-before, W < G from C20). *)
+(** It exits no later than the graceful period after the signal (0 <= W < G: both guaranteed by start-up, see
+    c19_exit_within_graceful_when_started below). *)
 Theorem c19_exit_within_graceful : forall W G l, 0 <= W -> W < G -> sd_exit_time W G l <= G.
 Proof. exact sd_exit_le_G. Qed.
 Print Assumptions c19_exit_within_graceful.
@@ -21,8 +22,8 @@ Theorem c19_exit_within_deadline : forall W G l, W < G -> sd_exit_time W G l <= 
 Proof. intros W G l H. rewrite <- sd_deadline_general. now apply sd_exit_le_deadline. Qed.
 Print Assumptions c19_exit_within_deadline.
 
-(** ... and the hypothesis 0 <= W is needed: Config.Validate accepts a negative wait-before (C20:
-    c20_negative_wait_accepted), and then the process may outlive G. *)
+(** ... and the hypothesis 0 <= W is needed: BEFORE fix 164dd13 Config.Validate accepted a negative wait-before (C20:
+    c20_negative_wait_accepted, about the old variant), and then the process could outlive G. *)
 Theorem c19_negative_wait_refuted : exists W G l, W < G /\ G < sd_exit_time W G l.
 Proof. exact sd_exit_le_G_negative_refuted. Qed.
 Print Assumptions c19_negative_wait_refuted.
@@ -76,11 +77,34 @@ Theorem c19_exit_code_zero_iff : forall W G l,
 Proof. exact sd_exit_code_spec. Qed.
 Print Assumptions c19_exit_code_zero_iff.
 
-(** The Shutdown timeout of a process that started (C20) is positive. *)
-Theorem c19_timeout_positive_when_started : forall r d, cf_starts r d = true ->
+(** Every configuration with which the CURRENT code starts (C20's start predicate) has 0 <= W < G, hence exits within
+    its graceful period, whatever the requests; and its Shutdown timeout is positive. *)
+Theorem c19_exit_within_graceful_when_started : forall r d l, cf_starts cf_cur r d = true ->
+  sd_exit_time (cf_waitbefore (cf_resolve_all r)) (cf_graceful (cf_resolve_all r)) l <= cf_graceful (cf_resolve_all r).
+Proof. intros r d l H. destruct (cf_starts_periods_cur r d H) as [H0 H1]. now apply sd_exit_le_G. Qed.
+Print Assumptions c19_exit_within_graceful_when_started.
+
+Theorem c19_no_cutoff_when_started : forall r d q, cf_starts cf_cur r d = true ->
+  let W := cf_waitbefore (cf_resolve_all r) in let G := cf_graceful (cf_resolve_all r) in
+  sd_accepted W q = true -> sd_arrival q + sd_service q <= G -> sd_completes W G q = true.
+Proof. intros r d q H W G. destruct (cf_starts_periods_cur r d H) as [H0 _]. now apply sd_no_cutoff. Qed.
+Print Assumptions c19_no_cutoff_when_started.
+
+Theorem c19_timeout_positive_when_started : forall v r d, cf_starts v r d = true ->
   0 < sd_timeout (cf_waitbefore (cf_resolve_all r)) (cf_graceful (cf_resolve_all r)).
-Proof. intros r d H. apply sd_timeout_pos. exact (cf_starts_periods r d H). Qed.
+Proof. intros v r d H. apply sd_timeout_pos. exact (cf_starts_periods v r d H). Qed.
 Print Assumptions c19_timeout_positive_when_started.
+
+(** The start-up check of the two periods in Model/Config.v is [sd_startable] (what the shutdown driver observes
+    when it is handed a negative wait-before): with the fix, startable <-> 0 <= W < G. *)
+Theorem c19_startable_iff : forall v c,
+  cf_periods_validate v c = None <-> sd_startable (cf_v_wait_nonneg v) (cf_waitbefore c) (cf_graceful c) = true.
+Proof. exact sd_startable_spec. Qed.
+Print Assumptions c19_startable_iff.
+
+Theorem c19_startable_nonneg : forall W G, sd_startable true W G = true <-> 0 <= W < G.
+Proof. exact sd_startable_nonneg. Qed.
+Print Assumptions c19_startable_nonneg.
 
 (** Non-vacuity: W = 1 s, G = 3 s; one request in flight at the signal that finishes in time, one arriving during
     the wait-before period that finishes in time, one too slow, one arriving after the listener closed. *)
@@ -101,3 +125,7 @@ Proof.
   split; [|vm_compute; reflexivity].
   intros q [<-|[<-|[<-|[]]]] H; vm_compute in H |- *; congruence.
 Qed.
+(* a started configuration exists, so the ..._when_started corollaries are not vacuous *)
+Example c19_nonvacuous_started : cf_starts cf_cur cf_ex_good cf_ex_disc = true /\
+  sd_startable true (-1000000000) 1000000000 = false /\ sd_startable false (-1000000000) 1000000000 = true.
+Proof. split; [exact cf_ex_good_starts|split; reflexivity]. Qed.
